@@ -1,6 +1,134 @@
-//! Kani harnesses for nomt/src/beatree/allocator/free_list.rs (compiled into the real crate only under cfg(kani)).
+//! Free-list commit: BOUNDED NATIVE ENUMERATION of the real `FreeList::{discard, commit}` (run with
+//! `cargo kani playback`, i.e. an ordinary debug build of the real crate; no solver).  The
+//! deductive units v6/v10/v11 prove pop / discard / get_nth_pop / len accounting / the finisher and
+//! the allocator; `commit` (preallocate + push_and_encode, the fragmentation protocol) was not
+//! brought within Verus' reach, so this labelled stand-in checks its contract on a grid of list
+//! shapes around the 1022-entry page boundaries.  Never counted as proved.
 #![allow(unused_imports, dead_code)]
 use super::*;
+
+#[cfg(test)]
+fn build_list(page_pool: &PagePool, n: usize, bump: &mut PageNumber, next_free: &mut u32) -> FreeList {
+    // a clean list with n entries, built through the real API from the empty list
+    let mut fl = FreeList { portions: vec![], pop: false, len: 0, fragmented: false, released_portions: vec![] };
+    let to_push: Vec<PageNumber> = (0..n).map(|_| { let p = PageNumber(*next_free); *next_free += 1; p }).collect();
+    let _ = fl.commit(page_pool, to_push, bump);
+    fl
+}
+
+#[cfg(test)]
+fn tracked(fl: &FreeList) -> std::collections::BTreeSet<u32> {
+    fl.all_tracked_pages().into_iter().map(|p| p.0).collect()
+}
+
+/// Contract of one sync step on the free list, checked for every (old length, number of pages
+/// allocated during the sync, number of pages freed) on a grid around the page boundaries:
+///  C17 (copy-on-write): no page written by `commit` is a page of the previous image's free list
+///       that is still listed or still a portion head after the allocations - the previous image
+///       must stay readable until the meta swap; every written page number is either one of the
+///       old list's entries or a bump page;
+///  C19 (conservation): tracked' == (tracked \ allocated) + freed + bump pages, without duplicates;
+///  C16 (format): the written pages decode to the new portions, chained through prev pointers from
+///       the new head; `len` and `fragmented` describe the portions (shape invariant of unit v6).
+#[cfg(test)]
+#[test]
+fn native_enum_free_list_commit_contract() {
+    let page_pool = PagePool::new();
+    let m = MAX_PNS_PER_PAGE;
+    let olds = [0usize, 1, 2, 5, m - 1, m, m + 1, m + 2, 2 * m - 1, 2 * m, 2 * m + 1, 3 * m + 1];
+    let allocs = [0usize, 1, 2, 3, m - 1, m, m + 1, 2 * m + 3];
+    let frees = [0usize, 1, 2, m - 2, m - 1, m, m + 1, 2 * m, 2 * m + 5];
+    let mut cases = 0u64;
+    for &n_old in &olds {
+        for &k in &allocs {
+            for &f in &frees {
+                let mut bump = PageNumber(1_000_000);
+                let mut next_free = 10u32;
+                let mut fl = build_list(&page_pool, n_old, &mut bump, &mut next_free);
+                assert_eq!(fl.len, n_old, "len after building {}", n_old);
+                let old_tracked = tracked(&fl);
+                let old_heads: std::collections::BTreeSet<u32> = fl.portions.iter().map(|p| p.0 .0).collect();
+                // on-disk content of every free-list page of the previous image: (prev, entries)
+                let old_pages: std::collections::BTreeMap<u32, (PageNumber, Vec<PageNumber>)> = fl
+                    .portions
+                    .iter()
+                    .enumerate()
+                    .map(|(i, p)| (p.0 .0, (if i == 0 { FREELIST_EMPTY } else { fl.portions[i - 1].0 }, p.1.clone())))
+                    .collect();
+                let old_entries: std::collections::BTreeSet<u32> = fl.portions.iter().flat_map(|p| p.1.iter().map(|x| x.0)).collect();
+                // pages handed to allocators during the sync: the first k pops of the clean list
+                let k_eff = std::cmp::min(k, n_old);
+                let handed: Vec<u32> = (0..k_eff).map(|i| fl.as_clean().get_nth_pop(i).0).collect();
+                let discarded = fl.discard(k);
+                assert_eq!(discarded, k_eff);
+                let handed_set: std::collections::BTreeSet<u32> = handed.iter().copied().collect();
+                assert_eq!(handed_set.len(), k_eff, "get_nth_pop handed out a page twice");
+                // what the previous image still needs: everything it tracked
+                let bump_before = bump.0;
+                let freed: Vec<PageNumber> = (0..f).map(|i| PageNumber(5_000_000 + i as u32)).collect();
+                let written = fl.commit(&page_pool, freed.clone(), &mut bump);
+                cases += 1;
+                let ctx = format!("old={} allocated={} freed={}", n_old, k, f);
+                // ---- C17: copy-on-write
+                let mut decoded_written: Vec<(PageNumber, PageNumber, Vec<PageNumber>)> = Vec::new();
+                for (pn, page) in written {
+                    let (prev, items) = decode_free_list_page(page, u32::MAX);
+                    decoded_written.push((pn, prev, items));
+                }
+                for (pn, prev, items) in &decoded_written {
+                    assert!(pn.0 != 0, "{}: wrote the nil page", ctx);
+                    assert!(!handed_set.contains(&pn.0), "{}: free-list page written to {}, which was handed to an allocator in this sync", ctx, pn.0);
+                    if let Some((old_prev, old_items)) = old_pages.get(&pn.0) {
+                        // a free-list page of the previous image may only be rewritten in place with
+                        // byte-identical content (idempotent); anything else destroys the image
+                        assert!(prev == old_prev && items == old_items,
+                            "{}: free-list page {} of the previous image was overwritten with different content before the meta swap", ctx, pn.0);
+                    } else {
+                        let from_old_entries = old_entries.contains(&pn.0);
+                        let from_bump = pn.0 >= bump_before && pn.0 < bump.0;
+                        assert!(from_old_entries || from_bump, "{}: free-list page written to {} which was neither free in the previous image nor beyond its bump", ctx, pn.0);
+                    }
+                }
+                // ---- C19: conservation, no duplicates
+                let new_tracked = tracked(&fl);
+                let n_listed: usize = fl.portions.iter().map(|p| p.1.len() + 1).sum();
+                assert_eq!(new_tracked.len(), n_listed, "{}: a page is tracked twice", ctx);
+                let mut expect: std::collections::BTreeSet<u32> = old_tracked.difference(&handed_set).copied().collect();
+                expect.extend(freed.iter().map(|p| p.0));
+                expect.extend(bump_before..bump.0);
+                if decoded_written.is_empty() {
+                    assert!(k_eff == 0 && f == 0, "{}: nothing written although the list changed", ctx);
+                } else {
+                    assert_eq!(new_tracked, expect, "{}: tracked pages are not (old - allocated) + freed + bumped", ctx);
+                }
+                // ---- C16: accounting and on-disk format
+                let (len, fragmented) = len_and_fragmented(&fl.portions);
+                assert_eq!((fl.len, fl.fragmented), (len, fragmented), "{}", ctx);
+                let total: usize = fl.portions.iter().map(|p| p.1.len()).sum();
+                assert_eq!(fl.len, total, "{}: len is not the number of entries", ctx);
+                assert!(!fl.pop, "{}: list not clean after commit", ctx);
+                for (i, p) in fl.portions.iter().enumerate() {
+                    assert!(!p.1.is_empty() && p.1.len() <= m, "{}: portion {} has {} entries", ctx, i, p.1.len());
+                }
+                // every portion that is new or changed has been written, and its last write decodes to it
+                for (idx, p) in fl.portions.iter().enumerate() {
+                    let expect_prev = if idx == 0 { FREELIST_EMPTY } else { fl.portions[idx - 1].0 };
+                    let last = decoded_written.iter().rev().find(|w| w.0 == p.0);
+                    match last {
+                        Some((_, prev, items)) => {
+                            assert!(*prev == expect_prev && *items == p.1, "{}: the page written for portion {} does not decode to it", ctx, idx);
+                        }
+                        None => {
+                            let unchanged = old_pages.get(&p.0 .0).map_or(false, |(op, oi)| *op == expect_prev && *oi == p.1);
+                            assert!(unchanged, "{}: portion {} (page {}) changed but was not written", ctx, idx, p.0 .0);
+                        }
+                    }
+                }
+            }
+        }
+    }
+    println!("native_enum_free_list_commit_contract: {} calls", cases);
+}
 
 #[cfg(test)]
 include!("/verif/.build/playback/free_list.inc");
